@@ -9,12 +9,12 @@
        part X (any number of components with wires among themselves only, any behaviour, roots of
        the tick or not, placed anywhere in the order) give every old device the same observation,
        leave the same state, callbacks and outputs for everything outside X.
-   PARTIAL: equality of every old device's full observation sequence between a run and the run
-   extended by a disconnected part (with its own callbacks, adapters, nested systems) is decided per
-   pair of runs of the real schedulers (code 91) and, for adapters / EPICS records, on the real
-   adapter classes; it is not a theorem over multi-tick master histories.  Property theorems only. *)
+   (4) whole runs of a flat simulation in simulation time: [C10_run_noninterference] below.
+   PARTIAL: for nested configurations, interrupts and real-time pacing, equality of every old
+   device's observation sequence is decided per pair of runs of the real schedulers (code 91) and,
+   for adapters / EPICS records, on the real adapter classes.  Property theorems only. *)
 From TV Require Import Base Gen.SourceConsts Model.Topics Model.Wiring Model.Ticker Model.Component Model.Sim
-  Proofs.TopicsP Proofs.SimP Proofs.FlattenP Proofs.NonInterfP.
+  Model.SimTime Proofs.TopicsP Proofs.SimP Proofs.FlattenP Proofs.NonInterfP Proofs.NonInterfLoopP.
 Open Scope Z_scope.
 
 Theorem C10_topics_disjoint : forall a b,
@@ -40,7 +40,7 @@ Proof. intros devf. apply (tick_step_outside devf). Qed.
 
 (* [srel isX lv s s']: the two simulation states agree on every component outside X (device
    component state, update counters, pending callbacks of scheduler lv) *)
-Theorem C10_tick_noninterference : forall cfg cfg' devf inner (isX : comp -> bool) lv time roots roots' ext s s',
+Theorem C10_tick_noninterference : forall cfg cfg' devf inner inner' (isX : comp -> bool) lv time roots roots' ext s s',
   let l := level_of cfg lv in
   let l' := level_of cfg' lv in
   l_order l = filter (fun ck : comp * ckind => negb (isX (fst ck))) (l_order l') ->
@@ -51,9 +51,39 @@ Theorem C10_tick_noninterference : forall cfg cfg' devf inner (isX : comp -> boo
   (forall c, isX c = false -> memb c roots' = memb c roots) ->
   srel isX lv s s' ->
   let '(s1, out, ob) := tick_with cfg devf inner lv time roots ext s in
-  let '(s1', out', ob') := tick_with cfg' devf inner lv time roots' ext s' in
+  let '(s1', out', ob') := tick_with cfg' devf inner' lv time roots' ext s' in
   srel isX lv s1 s1' /\ out' = out /\ filter (notX isX) ob' = ob.
 Proof. exact tick_noninterference. Qed.
+
+(* whole runs: the master in simulation time (Model/SimTime.v: initial tick, then always the earliest
+   pending callbacks, up to a horizon; compared with the real-time master model on every generated
+   case it applies to, code 55).  A flat simulation and the same simulation extended by a
+   disconnected part X of ANY behaviour -- its own callbacks at any times, hence extra ticks and
+   merged ticks -- : when the extended run is complete, so is the base run with the same number of
+   steps, and every base device has observed exactly the same sequence of (time, inputs); the
+   states of everything outside X agree. *)
+Theorem C10_run_noninterference : forall cfg cfg' devf (isX : comp -> bool),
+  l_order (level_of cfg top) = filter (fun ck : comp * ckind => negb (isX (fst ck))) (l_order (level_of cfg' top)) ->
+  l_conns (level_of cfg top) = filter (oldc isX) (l_conns (level_of cfg' top)) ->
+  (forall ck, In ck (l_order (level_of cfg' top)) -> snd ck = KDev) ->
+  (forall k, In k (l_conns (level_of cfg' top)) -> isX (out_comp k) = isX (in_comp k)) ->
+  isX ext_id = false -> isX exp_id = false ->
+  forall n fuel initial h s1' o1',
+    sim_run cfg' devf n fuel initial h = (s1', o1', true) ->
+    exists s1, sim_run cfg devf n fuel initial h = (s1, filter (notX isX) o1', true) /\ srel isX top s1 s1'.
+Proof. exact run_noninterference. Qed.
+
+(* non-vacuity of the run theorem: base 3 -> 4 (3 periodic every 10), extended by 7 -> 8 with 7
+   periodic every 4: extra ticks at 4, 8, 12, 16 and a merged tick at 20 *)
+Example C10_run_example :
+  let dev : devfun := fun c n t inp => ([(1%positive, Zpos c + n)], if Pos.eqb c 3 then Some (t + 10) else if Pos.eqb c 7 then Some (t + 4) else None) in
+  let l := {| l_order := [(3%positive, KDev); (4%positive, KDev)]; l_conns := [(3, 1, 4, 1)%positive] |} in
+  let l' := {| l_order := [(7%positive, KDev); (3%positive, KDev); (8%positive, KDev); (4%positive, KDev)];
+               l_conns := [(7, 1, 8, 1); (3, 1, 4, 1)]%positive |} in
+  let '(_, ob, fin) := sim_run [(1%positive, l)] dev 50 1 0 20 in
+  let '(_, ob', fin') := sim_run [(1%positive, l')] dev 50 1 0 20 in
+  fin = true /\ fin' = true /\ filter (notX (fun c => Pos.leb 7 c)) ob' = ob /\ length ob = 6%nat /\ length ob' = 18%nat.
+Proof. vm_compute. repeat split; reflexivity. Qed.
 
 (* non-vacuity: a chain 3 -> 4 extended by the disconnected pair 7 -> 8, both 3 and 7 roots *)
 Example C10_example :
